@@ -55,6 +55,10 @@ var lineTemplates = []string{
 // are terminated by LF or CRLF; the last line may lack its terminator.
 func RandomText(r *rand.Rand, n int, allowCR bool) []byte {
 	var b bytes.Buffer
+	if r.Intn(16) == 0 {
+		// what some editors put at the very start of a file: ordinary bytes to a txtar parser
+		b.WriteString([]string{"\xef\xbb\xbf", "\xef\xbb\xbf", "\xff\xfe", "\xef\xbb", "\x00"}[r.Intn(5)])
+	}
 	for i := 0; i < n; i++ {
 		var line string
 		switch r.Intn(10) {
